@@ -107,97 +107,6 @@ fn c06_utf16_encoding_of_every_char() {
     std::mem::forget(out);
 }
 
-fn check_roundtrip(format: TextArchiveFormat, e: Endian, unicode: bool) {
-    let mut t = TextArchive::new(format, e);
-    if unicode {
-        t.set_title("abc".to_string());
-    }
-    t.set_message("k", "abc");
-    t.set_message("l", "");
-    t.set_message("m", "hi");
-    let img = keep(t.serialize()).unwrap();
-    // file layout: every message starts on a 4-byte boundary and carries its key as label
-    let arch = keep(BinArchive::from_bytes(&img, e)).unwrap();
-    // encoded sizes incl. terminator, padded to 4: title "abc" -> 4; "abc" -> 4 (Shift-JIS) / 8 (UTF-16); "" -> 4
-    let base = if unicode { 4 } else { 0 };
-    let (o1, o2) = if unicode { (base + 8, base + 12) } else { (base + 4, base + 8) };
-    assert!(arch.find_label_address("k") == Some(base) && arch.find_label_address("l") == Some(o1) && arch.find_label_address("m") == Some(o2), "C06: every message must start on a 4-byte boundary and carry its key as the label of that address");
-    std::mem::forget(arch);
-    let u = keep(TextArchive::from_bytes(&img, format, e)).unwrap();
-    assert!(u.get_title() == if unicode { "abc" } else { "" }, "C06: title changed");
-    let entries = u.get_entries();
-    assert!(entries.len() == 3, "C06: number of entries changed");
-    let (k0, v0) = entries.get_index(0).unwrap();
-    let (k1, v1) = entries.get_index(1).unwrap();
-    let (k2, v2) = entries.get_index(2).unwrap();
-    assert!(k0 == "k" && k1 == "l" && k2 == "m", "C06: key order changed");
-    assert!(v0 == "abc" && v1 == "" && v2 == "hi", "C06: a message changed");
-    assert!(!u.is_dirty(), "C07: a parsed archive must not be dirty");
-    std::mem::forget(u);
-    std::mem::forget(t);
-    std::mem::forget(img);
-}
-
-// @tier quick
-// @timeout 2400
-// @mem 16
-// @bounds concrete archive: title "abc" (UTF-16 format), keys k,l,m with messages "abc" (encoded length 3 mod 4), "" and "hi"; Shift-JIS/little-endian, Shift-JIS/big-endian, UTF-16/little-endian (solver-chosen arm)
-// @claims serialize -> from_bytes returns the same title, keys in the same order and every message (empty included); in the file every message starts on a 4-byte boundary and carries its key as the label of that address
-// @assume encoding_rs encode/decode replaced by the 7-bit model (stubs.rs): ASCII text only
-#[kani::proof]
-#[kani::unwind(30)]
-#[kani::stub(encoding_rs::Encoding::decode, crate::stubs::decode_ascii_model)]
-#[kani::stub(encoding_rs::Encoding::encode, crate::stubs::encode_ascii_model)]
-fn c06_roundtrip_three_messages() {
-    let sel: u8 = kani::any();
-    kani::assume(sel < 3);
-    if sel == 0 { check_roundtrip(TextArchiveFormat::ShiftJIS, Endian::Little, false); }
-    if sel == 1 { check_roundtrip(TextArchiveFormat::ShiftJIS, Endian::Big, false); }
-    if sel == 2 { check_roundtrip(TextArchiveFormat::Unicode, Endian::Little, true); }
-    kani::cover!(sel == 2);
-}
-
-// @tier quick
-// @timeout 1200
-// @mem 12
-// @bounds the empty text archive, both formats, both endiannesses (symbolic choice)
-// @claims the empty archive round-trips (no entries, empty title)
-// @assume encoding_rs encode/decode replaced by the 7-bit model (stubs.rs)
-#[kani::proof]
-#[kani::unwind(14)]
-#[kani::stub(encoding_rs::Encoding::decode, crate::stubs::decode_ascii_model)]
-#[kani::stub(encoding_rs::Encoding::encode, crate::stubs::encode_ascii_model)]
-fn c06_roundtrip_empty() {
-    let unicode: bool = kani::any();
-    let big: bool = kani::any();
-    let format = if unicode { TextArchiveFormat::Unicode } else { TextArchiveFormat::ShiftJIS };
-    let e = if big { Endian::Big } else { Endian::Little };
-    let t = TextArchive::new(format, e);
-    let img = if unicode && big {
-        keep(TextArchive::new(TextArchiveFormat::Unicode, Endian::Big).serialize()).unwrap()
-    } else if unicode {
-        keep(TextArchive::new(TextArchiveFormat::Unicode, Endian::Little).serialize()).unwrap()
-    } else if big {
-        keep(TextArchive::new(TextArchiveFormat::ShiftJIS, Endian::Big).serialize()).unwrap()
-    } else {
-        keep(TextArchive::new(TextArchiveFormat::ShiftJIS, Endian::Little).serialize()).unwrap()
-    };
-    let u = if unicode && big {
-        keep(TextArchive::from_bytes(&img, TextArchiveFormat::Unicode, Endian::Big)).unwrap()
-    } else if unicode {
-        keep(TextArchive::from_bytes(&img, TextArchiveFormat::Unicode, Endian::Little)).unwrap()
-    } else if big {
-        keep(TextArchive::from_bytes(&img, TextArchiveFormat::ShiftJIS, Endian::Big)).unwrap()
-    } else {
-        keep(TextArchive::from_bytes(&img, TextArchiveFormat::ShiftJIS, Endian::Little)).unwrap()
-    };
-    assert!(u.get_entries().len() == 0 && u.get_title() == "", "C06: the empty archive must round-trip to the empty archive");
-    kani::cover!(unicode && big);
-    std::mem::forget(t);
-    std::mem::forget(u);
-    std::mem::forget(img);
-}
-
 // ---------------------------------------------------------------------------------------------
 // C07
 // ---------------------------------------------------------------------------------------------
